@@ -126,7 +126,7 @@ func suiteSenAgree(tier string, seed uint64) *Report {
 	vals := []string{"abc", "true", "false", "null", `"true"`, `"null"`, `"false"`, `"true"`, `"null"`, `"false"`, `'true'`,
 		`"a b"`, `"a\tb"`, `"é"`, `"😀"`, "\"\xc3\xa9\"", `""`, `''`, "1", "-1", "0.5", "1e3", "-1.25e-2", "12345678901234567890", "1.0e400",
 		"a1", "x-y", "$r", "@t", "\"a\xef\xbb\xbfb\"", "\"\xef\xbb\xbf\"", "x\xef\xbb\xbfy", "\xef\xbb\xbfz", "[]", "{}", "[1 2]", "{a:1}", `{"a b":true}`, "[[]]", `"12"`, `"-"`, "tru", "nul", "truex", "nullx", "a.b", "9a"}
-	seps := []string{" ", ",", "\n", "  ", ", ", "\t", " // c\n", "\r\n"}
+	seps := []string{" ", ",", "\n", "  ", ", ", "\t", " // c\n", "\r\n", " /***/ ", " /* x **/ ", "/**/"}
 	for _, v := range vals {
 		add(v)
 		add(" " + v + " ")
